@@ -302,6 +302,12 @@ def run(p: Program, rep: Report, tier: str) -> None:
     extra = sources - allowed
     if path_verdict is not None:
         pass  # decided on the paths (below): sources and cookie lines
+    elif extra and all(("self.headers" in s_ or "self.cookies" in s_) for s_ in extra):
+        # pipelines over the two legitimate sources (map / starmap / chain / a renderer object): derived from them, but the
+        # per-pair transformation is not followed by this syntactic fallback
+        rep.undecide("R13.4", f"list_headers builds its pairs through {sorted(extra)[0][:70]}: a pipeline over the header mapping / cookie list that the rule does not follow")
+    elif extra and all(s_.endswith("()") and "." not in s_ and "(" not in s_[:-2] for s_ in extra):
+        rep.undecide("R13.4", f"list_headers takes its pairs from a callable chosen at run time ({sorted(extra)[0][:40]}): not followed")
     elif extra:
         rep.violation("R13.4", construct(lh, text="sources " + ", ".join(sorted(extra))), where(lh), "list_headers emits pairs that do not come from the checked header mapping or the cookie list")
     elif sources >= allowed:
